@@ -302,6 +302,22 @@ def run(ctx):
             for tcall in trims:
                 driven = any(b.dominates(dc.bb, tcall.bb) and dc.bb != tcall.bb and repr(strip_sym(arg_syms(dc)[2])) == repr(strip_sym(arg_syms(tcall)[0])) for dc in drives)
                 chk.ob("C11.a", f"{rt.path} [queue trimmed only after a drive]", driven, "the client's connection is driven before older messages are discarded for it" if driven else "a client's queue is trimmed without first driving its connection in this pass: messages that could have been written (a new client's greeting) are discarded for a client that is reading", tcall.loc(), nontrivial=False)
+        # "the metadata known when it connected": a description received again replaces what is stored — after the entry for
+        # the name is found or created, the unit and the description are written through it on every path
+        ents_ = [c for c in nonforeign_calls(rt) if c.fn is rt and callee_method_name(c) in ("or_insert_with", "or_insert", "or_default", "or_insert_with_key") and "hash" in (c.resolved or "") and "metadata" in _name_of(rt, c.args[0]).lower() + sym_str(sy.operand(c.args[0])).lower()]
+        if not ents_:
+            ents_ = [c for c in nonforeign_calls(rt) if c.fn is rt and callee_method_name(c) in ("or_insert_with", "or_insert", "or_default") and "hash::map::Entry" in (c.resolved or "") and any(x in sym_str(sy.operand(c.args[0])) for x in ("entry(",)) and "Event::Metadata" in repr([dd for dd, lab in gates(b, c.bb)]) + str([lab for dd, lab in gates(b, c.bb)])]
+        if len(ents_) == 1:
+            ecall = ents_[0]
+            through = []
+            for i_, k_, st in b.stmts():
+                if st["k"] == "assign" and st["p"].get("pr") == ["*"] and i_ in b.reachable_after(ecall.bb):
+                    tgt_ = sy.local(st["p"]["l"])
+                    if any(isinstance(x, tuple) and x and x[0] == "call" and sym_is_call(x, callee_method_name(ecall)) for x in sym_walk(tgt_)) and strip_sym(tgt_)[0] == "field":
+                        through.append((i_, strip_sym(tgt_)[2]))
+            flds = {f_ for _, f_ in through}
+            okm = len(flds) >= 2 and all(b.dominates(ecall.bb, i_) for i_, _ in through)
+            chk.ob("C11.d", f"{rt.path} [a repeated description replaces the stored one]", okm, f"unit and description are written through the entry (fields {sorted(flds)}) whether or not the name was known" if okm else "the stored unit / description are only set when the name is first seen: a later describe of the same name is ignored, and clients that connect afterwards are greeted with the outdated metadata", ecall.loc(), nontrivial=False)
         # metadata for a new client is its initial queue
         if inserts:
             v = strip_sym(sy.operand(inserts[0].args[2]))
